@@ -895,6 +895,28 @@ def check_delivery(w, q):
         paths = [p for (p, _q, _s) in getattr(l, "resumed_subs", [])]
         if any(strip_share(p)[0] is not None for p in paths):
             w.skips["c08-shared-sub"] += 1
+            # known finding K-C08-shared-window: the session holds a plain and a shared subscription
+            # on the SAME filter (one log, one window key): unacknowledged shared forwards rewind the
+            # plain request too, and the plain subscription sends acknowledged messages again
+            plain = set(p for p in paths if strip_share(p)[0] is None)
+            both = [p for p in paths if strip_share(p)[0] is not None and strip_share(p)[1] in plain]
+            if both:
+                prevl = chain[-2]
+                acked = defaultdict(int)
+                for f in prevl.fwd:
+                    if f.get("acked") and f["payload"] != b"" and f["topic_resolved"] is not None:
+                        acked[(f["topic_resolved"], f["payload"])] += 1
+                unacked_prev = sum(1 for f in prevl.fwd if f["qos"] > 0 and not f.get("acked"))
+                again = defaultdict(int)
+                for f in l.fwd:
+                    if f["payload"] != b"" and f["topic_resolved"] is not None and not (f["retain"] and f["cursor"] == "-"):
+                        again[(f["topic_resolved"], f["payload"])] += 1
+                for key, n_again in again.items():
+                    n_prev_total = sum(1 for f in prevl.fwd if (f["topic_resolved"], f["payload"]) == key)
+                    if acked.get(key, 0) > 0 and unacked_prev > 0 and n_again > n_prev_total - acked[key]:
+                        w.known.append((l.at, "C08", "K-C08-shared-window", "resumed link %d (%r) holds %r and %r: %r, %d cop%s of which it had acknowledged, arrived %d times again" % (
+                            l.k, l.name, strip_share(both[0])[1], both[0], key, acked[key], "y" if acked[key] == 1 else "ies", n_again)))
+                        break
             continue
         # when did each subscription of the session take effect (acceptance counter)
         since = {}
